@@ -41,7 +41,12 @@ func replayCorpus(t *testing.T, run *emit.Run) {
 		run.Count("corpus", e.Scenario)
 		switch e.Scenario {
 		case "batch-key-handover":
-			scriptedKeyHandover(t, run)
+			scriptedKeyHandover(t, run, -1, -1)
+		case "batch-key-handover-respelled":
+			// the released key comes back under every accepted spelling of its address
+			for form := 0; form < nSpellings; form++ {
+				scriptedKeyHandover(t, run, form, (form*5+3)%nSpellings)
+			}
 		default:
 			t.Fatalf("%s: unknown scenario %q", f, e.Scenario)
 		}
@@ -51,11 +56,14 @@ func replayCorpus(t *testing.T, run *emit.Run) {
 // scriptedKeyHandover: validator 0 confirms a batch with its key, moves to a fresh key, validator 1
 // registers validator 0's old key and confirms the SAME batch with it.  The batch must not end up with
 // two confirmations by one eth key.  Recorded as a model case as well.
-func scriptedKeyHandover(t *testing.T, run *emit.Run) {
+//
+// regForm / confForm < 0: checksummed everywhere; otherwise validator 1 registers the key in spelling
+// regForm and names it in spelling confForm in its confirmation.
+func scriptedKeyHandover(t *testing.T, run *emit.Run, regForm, confForm int) {
 	h := newBHist(t, run)
 	h.opBuild()
 	n := h.nonces[0]
-	confirm := func(v, key int) {
+	confirm := func(v, key, form int) {
 		ver := h.vers[n][len(h.vers[n])-1]
 		sgb, err := types.NewEthereumSignature(ver.cp, h.keys[key])
 		if err != nil {
@@ -63,8 +71,12 @@ func scriptedKeyHandover(t *testing.T, run *emit.Run) {
 		}
 		sig := hex.EncodeToString(sgb)
 		a := h.keyAddr(key)
+		written := a.Hex()
+		if form >= 0 {
+			written = spellForm(a, form)
+		}
 		_, err = h.ms.ConfirmBatch(h.ctx, &types.MsgConfirmBatch{
-			Nonce: n, TokenContract: h.token.GetAddress().Hex(), EthSigner: a.Hex(), Orchestrator: keeper.AccAddrs[v].String(), Signature: sig,
+			Nonce: n, TokenContract: h.token.GetAddress().Hex(), EthSigner: written, Orchestrator: keeper.AccAddrs[v].String(), Signature: sig,
 			Metadata: valsettypes.MsgMetadata{Creator: keeper.AccAddrs[v].String(), Signers: []string{keeper.AccAddrs[v].String()}},
 		})
 		c := confirmClass(err)
@@ -75,12 +87,12 @@ func scriptedKeyHandover(t *testing.T, run *emit.Run) {
 			h.regAt[fmt.Sprintf("%d/%d", n, v)] = h.regAddr[v]
 		}
 		h.step(fmt.Sprintf("C06.BCnf %d %d 1 %d (C06.COver %d %s)", v, n, idOf(h.addrIDs, lower(a)), idOf(h.addrIDs, lower(a)), ver.coq), c,
-			map[string]any{"op": "confirm", "validator": v, "nonce": n, "eth_signer": a.Hex(), "signing_key": key, "signed": "current", "signature": sig})
+			map[string]any{"op": "confirm", "validator": v, "nonce": n, "eth_signer": written, "signing_key": key, "signed": "current", "signature": sig})
 	}
-	confirm(0, 0)
+	confirm(0, 0, -1)
 	h.opRegister(0, 5)
-	h.opRegister(1, 0)
-	confirm(1, 0)
+	h.registerSpelled(1, 0, regForm)
+	confirm(1, 0, confForm)
 	h.finish()
 }
 
@@ -108,7 +120,7 @@ func scriptedReassignWitness(t *testing.T, run *emit.Run) {
 		t.Fatal(err)
 	}
 	if err := h.e.cons.AddMessageSignature(h.e.ctx, h.e.vals[0], []*consensustypes.ConsensusMessageSignature{
-		{Id: id, QueueTypeName: turnstoneQueue(chain), Signature: sig, SignedByAddress: h.keyAddr(0).Hex()}}); err != nil {
+		{Id: id, QueueTypeName: turnstoneQueue(chain), Signature: sig, SignedByAddress: h.reg[0][0].addr}}); err != nil {
 		t.Fatalf("witness: signature refused: %v", err)
 	}
 	h.regAt[fmt.Sprintf("%d/%d", id, 0)] = hex.EncodeToString(h.keyAddr(0).Bytes())
